@@ -8,13 +8,16 @@ package c08
 
 import (
 	"bytes"
+	"crypto/tls"
 	"encoding/json"
 	"fmt"
+	"github.com/caddyserver/caddy/v2"
 	"net"
 	"strings"
 	"sync"
 	"sync/atomic"
 	"time"
+	"verifharness/tlsutil"
 
 	"github.com/mholt/caddy-l4/layer4"
 
@@ -70,6 +73,8 @@ type env struct {
 	ups      []*drive.Upstream
 	dyn      []*drive.Upstream // tagged echo upstreams on 127.0.0.1/2/3, same port (dial address with a placeholder)
 	dynPort  int
+	cert     *tlsutil.Cert
+	tlsUp    *drive.Upstream // TLS echo upstream that first reports the server name and ALPN list of the handshake it saw
 	ovpnCfg  string
 	ovpnMsgs [][]byte
 	hellos   [][]byte
@@ -90,6 +95,14 @@ func (e *env) routes() string {
 				map[string]any{"handler": "tee", "branch": []any{map[string]any{"handler": "verif_sink", "name": "teeb", "bufsize": 700}}},
 				map[string]any{"handler": "throttle", "total_read_bytes_per_second": 1e9, "total_read_burst_size": 1 << 16, "read_bytes_per_second": 1e9, "read_burst_size": 1 << 15},
 				map[string]any{"handler": "verif_sink", "name": "rgx", "bufsize": 333}}},
+	}
+	if e.tlsUp != nil {
+		// TLS terminated, then relayed to a TLS upstream whose client settings are customised (so they do not follow
+		// the downstream ClientHello): what the upstream sees must not depend on any connection's hello
+		rs = append([]any{map[string]any{
+			"match": []any{map[string]any{"tls": map[string]any{"sni": tlsUpNames}}},
+			"handle": []any{map[string]any{"handler": "tls"},
+				map[string]any{"handler": "proxy", "upstreams": []any{map[string]any{"dial": []string{e.tlsUp.Addr}, "tls": map[string]any{"insecure_skip_verify": true}}}}}}}, rs...)
 	}
 	for i, p := range policies {
 		pol := map[string]any{"policy": p}
@@ -134,6 +147,8 @@ type connCase struct {
 	dynK   int  // pxd: which of the placeholder-addressed upstreams this connection names
 }
 
+var tlsUpNames = []string{"one.c08.test", "two.c08.test", "three.c08.test"}
+
 var dynHosts = []string{"127.0.0.1", "127.0.0.2", "127.0.0.3"}
 
 // startDyn starts three tagged echo servers on the same port of three loopback addresses.
@@ -169,7 +184,7 @@ func (e *env) startDyn() {
 	}
 }
 
-var classNames = []string{"http", "tls", "rgx", "px0", "px1", "px2", "px3", "px4", "px5", "ovpn", "ssh", "none", "pxd", "pxd", "pxm"}
+var classNames = []string{"http", "tls", "rgx", "px0", "px1", "px2", "px3", "px4", "px5", "ovpn", "ssh", "none", "pxd", "pxd", "pxm", "tlsup"}
 
 func (e *env) makeCase(seed int64, shard, n int, level string) *connCase {
 	r := fw.Rand(seed, "c08case", shard, n, level)
@@ -179,6 +194,9 @@ func (e *env) makeCase(seed int64, shard, n int, level string) *connCase {
 	}
 	if class == "pxd" && len(e.dyn) == 0 {
 		class = "px0"
+	}
+	if class == "tlsup" && e.tlsUp == nil {
+		class = "px1"
 	}
 	id := fmt.Sprintf("c08-%s-%d-%d", level, shard, n)
 	size := 1 + r.Intn(5000)
@@ -195,6 +213,9 @@ func (e *env) makeCase(seed int64, shard, n int, level string) *connCase {
 		cc.wire, cc.sink = append(append([]byte(nil), e.hellos[r.Intn(len(e.hellos))]...), body...), "tls"
 	case class == "rgx":
 		cc.wire, cc.sink = append([]byte(fmt.Sprintf("RGX%d", r.Intn(10))), body...), "rgx"
+	case class == "tlsup":
+		cc.dynK = r.Intn(len(tlsUpNames))
+		cc.wire, cc.proxy = body, true
 	case class == "pxm":
 		cc.wire, cc.proxy = append([]byte("PXM"), body...), true
 	case class == "pxd":
@@ -229,6 +250,28 @@ func run(c *fw.Ctx) {
 		}
 		defer up.Close()
 		e.ups = append(e.ups, up)
+	}
+	if cert, err := tlsutil.NewCert(append([]string{"verif.test"}, tlsUpNames...)...); err == nil {
+		if err := caddy.Load([]byte(tlsutil.CaddyConfig(cert, nil)), true); err == nil {
+			e.cert = cert
+			hmods.UseActiveContext = true
+			defer func() { _ = caddy.Stop() }()
+			if l, err := net.Listen("tcp", "127.0.0.1:0"); err == nil {
+				var seen sync.Map // remote address -> "SNI=..;ALPN=.."
+				tl := tls.NewListener(l, &tls.Config{Certificates: []tls.Certificate{cert.TLS}, NextProtos: []string{"h2", "http/1.1", "verif"},
+					GetConfigForClient: func(chi *tls.ClientHelloInfo) (*tls.Config, error) {
+						seen.Store(chi.Conn.RemoteAddr().String(), fmt.Sprintf("SNI=%s;ALPN=%s", chi.ServerName, strings.Join(chi.SupportedProtos, ",")))
+						return nil, nil
+					}})
+				e.tlsUp = drive.NewUpstreamOn(tl, func(uc *drive.UpConn) {
+					v, _ := seen.LoadAndDelete(uc.Conn.RemoteAddr().String())
+					_, _ = uc.Conn.Write([]byte(fmt.Sprint(v) + "\n"))
+					drive.EchoHandler(uc)
+				})
+				e.tlsUp.Addr = "tcp/" + l.Addr().String()
+				defer e.tlsUp.Close()
+			}
+		}
 	}
 	e.startDyn()
 	for _, up := range e.dyn {
@@ -365,6 +408,27 @@ func runLevel(c *fw.Ctx, e *env, level string, total, workers int) {
 				if len(segs) > 300 {
 					segs = drive.Segmentation("random", len(cc.wire), r)
 				}
+				if cc.class == "tlsup" {
+					// a real handshake with this connection's own server name, ALPN list and version range
+					tcfg := &tls.Config{RootCAs: e.cert.Pool, ServerName: tlsUpNames[cc.dynK], NextProtos: [][]string{{"http/1.1"}, {"h2", "http/1.1"}, nil}[n%3]}
+					if n%2 == 0 {
+						tcfg.MaxVersion = tls.VersionTLS12
+					}
+					tc := tls.Client(client, tcfg)
+					if err := tc.Handshake(); err != nil {
+						res.echo = []byte("handshake: " + err.Error())
+					} else {
+						go func() {
+							_ = drive.WriteSegments(tc, cc.wire, segs, 5, 20*time.Microsecond)
+							_ = tc.CloseWrite()
+						}()
+						res.echo = drive.ReadAll(tc)
+					}
+					_ = client.Close()
+					res.closed = client.WaitPeerClosed(40 * time.Second)
+					active.Add(-1)
+					continue
+				}
 				go func() {
 					_ = drive.WriteSegments(client, cc.wire, segs, 5, 20*time.Microsecond)
 					_ = client.CloseWrite()
@@ -434,7 +498,14 @@ func runLevel(c *fw.Ctx, e *env, level string, total, workers int) {
 				}
 			}
 		}
-		if cc.class == "pxm" {
+		if cc.class == "tlsup" {
+			want := append([]byte("SNI=;ALPN=\n"), cc.wire...)
+			if i := bytes.IndexByte(res.echo, '\n'); i >= 0 && bytes.HasPrefix(res.echo, []byte("SNI=")) && !bytes.HasPrefix(res.echo, []byte("SNI=;ALPN=\n")) {
+				report("upstream-handshake-depends-on-a-client", fmt.Sprintf("the upstream's TLS client settings are fixed by the configuration (no server name, no ALPN), yet the upstream saw %q in the handshake made for this connection (own hello: %s)", res.echo[:i], tlsUpNames[cc.dynK]))
+			} else if d := oracle.Diff(res.echo, want); d != "" {
+				report("proxy-echo "+classify(res.echo, want), "bytes relayed through TLS termination to a TLS echo upstream and back differ from this connection's stream: "+d)
+			}
+		} else if cc.class == "pxm" {
 			// both peers echo the stream: the client reads an order-preserving interleaving of two copies of it
 			if !selfShuffle(res.echo, cc.wire) {
 				report("proxy-echo "+classify(res.echo, cc.wire), fmt.Sprintf("bytes relayed to two echo peers and back (%d bytes) are not an interleaving of two copies of this connection's stream (%d bytes)", len(res.echo), len(cc.wire)))
@@ -492,6 +563,9 @@ func classGroup(class string) string {
 	}
 	if class == "pxm" {
 		return "proxy/two-peers"
+	}
+	if class == "tlsup" {
+		return "proxy/tls-terminated-to-tls-upstream"
 	}
 	if strings.HasPrefix(class, "px") {
 		i := int(class[2] - '0')
